@@ -543,7 +543,7 @@ func C13(c *run.Check) {
 	if completed < maxDepth {
 		c.Exhaustive = false
 	}
-	c.Rule = fmt.Sprintf("explicit-state BFS over call histories on 2 documents: state = (contents, length and capacity of the two caller-held node-set slots); %d operations per state (Exec of %d menu expressions incl. unions of caller variables, reverse axes, filters, from 3 context nodes (root, element, attribute), optionally keeping the result - possibly re-sliced to one element with spare capacity - in a slot; Unmarshal into slice and struct; BuildExpr replacing a compiled object); every transition = replay of the shortest history on fresh real objects + 1 call; after the call deep fingerprints (unexported fields, spare capacity, cyclic pointers) of the document tree, both slots' full-capacity views, all compiled expressions and the caller's binding maps must be unchanged (package-level variables of the library, reached through a generated build overlay, are fingerprinted too and reported, but a change there is not a violation by itself), the result must equal the result of the same call with the same argument values in every other history, and a reused compiled expression must agree with a freshly built one; plus, for every expression of the C08 AST universe, every ambiguous alternative list of the built parse forest rotated so that each alternative comes first once (covering every order the parser's map iteration can produce, one list at a time): same results required; plus process histories: for every ordered pair of %d calls (32 near-duplicate expression texts differing only in white space inside/outside literals, quote style, letter case, numeral spelling, abbreviation; 8 texts from 3 context nodes of 2 documents) a fresh process builds and executes the first, then the second, whose outcome must equal its outcome in a process where nothing ran before", len(ops), len(c13Menu), len(c13Calls()))
+	c.Rule = fmt.Sprintf("explicit-state BFS over call histories on 2 documents: state = (contents, length and capacity of the two caller-held node-set slots); %d operations per state (Exec of %d menu expressions incl. unions of caller variables, reverse axes, filters, from 3 context nodes (root, element, attribute), optionally keeping the result - possibly re-sliced to one element with spare capacity - in a slot; Unmarshal into slice and struct; BuildExpr replacing a compiled object); every transition = replay of the shortest history on fresh real objects + 1 call; after the call deep fingerprints (unexported fields, spare capacity, cyclic pointers) of the document tree, both slots' full-capacity views, all compiled expressions and the caller's binding maps must be unchanged (package-level variables of the library, reached through a generated build overlay, are fingerprinted too and reported, but a change there is not a violation by itself), the result must equal the result of the same call with the same argument values in every other history, and a reused compiled expression must agree with a freshly built one; plus, for every expression of the C08 AST universe, every ambiguous alternative list of the built parse forest rotated so that each alternative comes first once (covering every order the parser's map iteration can produce, one list at a time): same results required; plus process histories: for every ordered pair of %d calls (32 near-duplicate expression texts differing only in white space inside/outside literals, quote style, letter case, numeral spelling, abbreviation; 8 texts from 3 context nodes of 2 documents; 10 texts about node values - string-values, node-set comparisons, sums - on both documents) a fresh process builds and executes the first, then the second, whose outcome must equal its outcome in a process where nothing ran before", len(ops), len(c13Menu), len(c13Calls()))
 	c.Assume("fingerprints are computed by reflection over the real objects (harness/snap); parser-order exploration permutes one alternative list at a time (<=1 deviation from the built order)")
 }
 
